@@ -173,6 +173,22 @@ impl WMon {
         let Ok(v) = serde_json::from_str::<serde_json::Value>(line) else { return };
         let Some(links) = v["params"]["data"]["links"].as_array() else { return };
         out.probe("w.c17.tick");
+        // under the throughput floor nothing is reported weak (judged from the published rates,
+        // well clear of the 100 kbit/s boundary: the classifier sees the rates a moment earlier)
+        let total_bps: u64 = links.iter().filter(|l| l["connected"].as_bool() == Some(true)).map(|l| l["bitrate_bytes_per_sec"].as_u64().unwrap_or(0) * 8).sum();
+        if total_bps < 20_000 {
+            out.probe("w.c17.tick_far_below_floor");
+            for l in links {
+                if l["weak"].as_bool() == Some(true) {
+                    out.violate(
+                        "C17.weak_when_unjudgeable",
+                        "below_floor_whole_loop",
+                        now,
+                        format!("{} reported weak ({}) while the published total throughput is {total_bps} bit/s (real loop)", l["label"].as_str().unwrap_or("?"), l["weak_reason"].as_str().unwrap_or("?")),
+                    );
+                }
+            }
+        }
         // a bypassed tick (throughput under the floor, nobody connected) restarts every history
         if links.iter().any(|l| l["weak_reason"].as_str() == Some("bypassed")) || links.is_empty() {
             self.c17.clear();
